@@ -277,6 +277,16 @@ def verify_unit(unit_name, repo=None, use_cache=True, keep=True, canary=True):
     if cached is None:
         rc, out, diags, stderr, dt, cmd = run_verus(path)
         cached = {'rc': rc, 'out': out, 'diags': diags, 'stderr_tail': stderr[-4000:] if (out is None or 'panicked' in stderr) else '', 'dt': dt, 'cmd': cmd}
+        # A resource-limit failure decides nothing. Before answering UNDECIDED, run once more with four times the per-function
+        # limits (same text otherwise, same line numbers): a postcondition that became false is then usually reported as such.
+        if out is not None and any(f['kind'] == 'rlimit' for f in classify(diags, ug)[0]):
+            bpath = os.path.join(GEN_DIR, unit_name + '_boost.rs')
+            open(bpath, 'w').write(re.sub(r'#\[verifier::rlimit\((\d+)\)\]', lambda m: '#[verifier::rlimit(%d)]' % (4 * int(m.group(1))), text))
+            rc_b, out_b, diags_b, stderr_b, dt_b, cmd_b = run_verus(bpath, extra=('--rlimit', '40'))
+            if out_b is not None:
+                diags_b = json.loads(json.dumps(diags_b).replace(unit_name + '_boost.rs', unit_name + '.rs'))
+                cached.update({'rc': rc_b, 'out': out_b, 'diags': diags_b, 'dt': dt + dt_b, 'cmd': cmd + ' ; retried with 4x rlimit: ' + cmd_b, 'boosted': True})
+                out, diags = out_b, diags_b
         # canary run
         if canary and out is not None:
             ug.generate(canary=True)
